@@ -41,6 +41,7 @@ func runC10(c *core.Ctx, o Options) {
 	}
 	m := s.m
 	s.checkSaveHandler("Y1")
+	s.checkRegisteredOnce("Y2", true, "ResendRequest")
 	// ---- Y2 / Y3 / Y5 on the resend handler
 	rh := s.one(true, "ResendRequest")
 	if rh != nil {
@@ -284,6 +285,36 @@ func runC10(c *core.Ctx, o Options) {
 			c.Check(n == 0, "Y6", "inbound:Logon", "every successful logon path runs the gap check", lf.Pos(), "gap check follows each transition to SuccessfulLogged", fmt.Sprintf("%d logon path(s) skip the gap check", n))
 		}
 	}
+	// ---- Y6 premise: the gap check compares the Logon's number with the incoming counter, so the all-types handler that tracks
+	// that counter must leave it alone while a Logon (or the answer to the own Logon) is awaited — it runs before the Logon handler
+	{
+		wl := m.Set("WaitingLogon", "WaitingLogonAnswer")
+		nTrack := 0
+		for _, r := range s.regs {
+			if !r.In || r.Key != "ALL" || r.Fn == nil {
+				continue
+			}
+			for _, t := range s.tr.Traces(r.Fn, m.AllStates) {
+				sets := false
+				for _, e := range t.Events {
+					if e.Kind == "store" && e.Name == "SetSeqNum" {
+						sets = true
+					}
+				}
+				if !sets {
+					continue
+				}
+				nTrack++
+				read, has := s.entryRead(t)
+				if !has {
+					read = m.AllStates
+				}
+				c.Check(read&wl == 0, "Y6", an.NameOf(r.Fn), "the incoming counter is not advanced while a Logon is awaited", r.Fn.Pos(), "state ∉ {WaitingLogon, WaitingLogonAnswer} on the path that sets the counter",
+					"the all-types handler sets the incoming counter on a path that state "+m.SetString(read&wl)+" can take: it runs before the Logon handler, so the Logon's own number is stored first and the gap check that follows sees no gap — missing messages are never requested")
+			}
+		}
+		c.Check(nTrack >= 1, "Y6", "", "the handler that tracks the incoming counter was found", 0, fmt.Sprint(nTrack), "no all-types incoming handler sets the incoming counter (anchor moved)")
+	}
 	// ---- Y7 each stored object is sent once: what the store keeps under a number is never re-stamped by a later send
 	checkFreshMessages(c, s, "Y7")
 	// ---- Y8 the batch is delivered whole: SendBatch walks the entire list through the same blocking enqueue as Send
@@ -295,7 +326,7 @@ func runC10(c *core.Ctx, o Options) {
 	} else {
 		c.Ob("Y9", "start", "all-types incoming handler restores the logged-on state", 0).Fail("no all-types incoming handler is registered when the timers start: in WaitingTestReqAnswer a ResendRequest would be rejected instead of served")
 	}
-	c.RuleMin = map[string]int{"Y1": 1, "Y2": 1, "Y3": 1, "Y4": 2, "Y5": 1, "Y6": 2, "Y7": 3, "Y8": 3, "Y9": 1}
+	c.RuleMin = map[string]int{"Y1": 1, "Y2": 3, "Y3": 1, "Y4": 2, "Y5": 1, "Y6": 4, "Y7": 3, "Y8": 3, "Y9": 1}
 	c.MinObl = 8
 }
 
